@@ -372,10 +372,10 @@ class Union:
         return any(isinstance(obj, t) for t in self.types)
 
     def __eq__(self, other):
-        return self.__args__ == other.__args__
+        return frozenset(self.__args__) == frozenset(other.__args__)
 
     def __hash__(self):
-        return hash(self.__args__)
+        return hash(frozenset(self.__args__))
 
     def __str__(self):
         return " | ".join(map(clsstring, self.__args__))
@@ -424,10 +424,10 @@ class Intersection:
         return all(isinstance(obj, t) for t in self.types)
 
     def __eq__(self, other):
-        return self.__args__ == other.__args__
+        return frozenset(self.__args__) == frozenset(other.__args__)
 
     def __hash__(self):
-        return hash(self.__args__)
+        return hash(frozenset(self.__args__))
 
     def __str__(self):
         return " & ".join(map(clsstring, self.__args__))
